@@ -1,4 +1,5 @@
 """C10: permissions, timestamps, xattrs and ownership are preserved as requested."""
+from ..common import rmtree as _rmtree
 import json, os, shutil, stat, time
 from .. import build, ctlplane, evplane, fsmat, nsplane, runner, tlc
 from ..nsplane import E, SC
@@ -102,7 +103,7 @@ def run(ctx):
         fs = build_tree(rnd, hist_modes, False)
         sc = SC("hist-%s-%d" % (drv, k), fs, ["s"], "d", T=True, extra=["--block-size", "1000"], cls="meta"); sc["umask"] = 0o022
         root = os.path.join(scratch(), "c10h-%s-%d" % (drv, k))
-        shutil.rmtree(root, ignore_errors=True); os.makedirs(root)
+        _rmtree(root); os.makedirs(root)
         names = fsmat.Names(); contents = fsmat.materialise(root, nsplane.mat_entries(sc), names)
         sc1 = dict(sc); sc1["extra"] = sc["extra"] + first
         r1 = runner.run_xcp(binary, nsplane.cli(sc1, drv, names, root, 2), cwd=root, umask=0o022)
@@ -112,7 +113,7 @@ def run(ctx):
         r2 = runner.run_xcp(binary, nsplane.cli(sc2, drv, names, root, 2), cwd=root, umask=0o022)
         t1 = time.time_ns()
         end = {tuple(e["p"]): e for e in nsplane.observe(fsmat.snapshot(root, names, contents))}
-        shutil.rmtree(root, ignore_errors=True)
+        _rmtree(root)
         out = []
         def md(e):
             mo, mt, u, g, x, ino = e["md"].split("|"); return int(mo, 8), mt, int(u), int(g), x
